@@ -1244,6 +1244,33 @@ async fn dg_send(tx: &DgTx, seed: u64, idx: u64, g: Dg, log: &Log) {
             let BufResult(res, (b, _)) = s.send_msg(b, Vec::<u8>::new(), *to).await;
             fin(res, vec_state(&b) == before);
         }
+        // connected-socket variants (the sender sockets are connected to the receiver)
+        (DgTx::Udp(s, _), 6) => {
+            let b = single();
+            let before = vec_state(&b);
+            let BufResult(res, b) = s.send(b).await;
+            fin(res, vec_state(&b) == before);
+        }
+        (DgTx::Udp(s, _), 7) => {
+            let b = multi();
+            let before: Vec<u64> = b.iter().flat_map(vec_state).collect();
+            let BufResult(res, b) = s.send_vectored(b).await;
+            fin(res, b.iter().flat_map(vec_state).collect::<Vec<u64>>() == before);
+        }
+        (DgTx::Udp(s, _), 8) => {
+            let b = single();
+            let before = vec_state(&b);
+            let BufResult(res, fut) = s.send_zerocopy(b).await;
+            let b = fut.await;
+            fin(res, vec_state(&b) == before);
+        }
+        (DgTx::Udp(s, _), 9) => {
+            let b = multi();
+            let before: Vec<u64> = b.iter().flat_map(vec_state).collect();
+            let BufResult(res, fut) = s.send_zerocopy_vectored(b).await;
+            let b = fut.await;
+            fin(res, b.iter().flat_map(vec_state).collect::<Vec<u64>>() == before);
+        }
         (DgTx::Raw(fd, to), 2) => {
             let b = multi();
             let before: Vec<u64> = b.iter().flat_map(vec_state).collect();
@@ -1315,7 +1342,7 @@ fn dgram_case(c: &mut Case) -> Result<Vec<u64>, BadCase> {
             flags: c.take()?,
         };
         if g.size > 60000 || g.cap > 70000 || g.sender >= nsend || g.flags > 1 || g.skind == 0
-            || g.skind > 5 || g.rkind == 0 || g.rkind > 9 || (g.flags == 1 && tr == 0)
+            || g.skind > 9 || (g.skind > 5 && tr != 0) || g.rkind == 0 || g.rkind > 9 || (g.flags == 1 && tr == 0)
         {
             return Err(BadCase);
         }
@@ -1338,6 +1365,7 @@ fn dgram_case(c: &mut Case) -> Result<Vec<u64>, BadCase> {
                 let mut v = Vec::new();
                 for i in 0..nsend {
                     let s = UdpSocket::bind("127.0.0.1:0").await.unwrap();
+                    s.connect(to).await.unwrap();
                     log.push([10, i, s.local_addr().unwrap().port() as u64, 0, 0, 0, 0]);
                     v.push(DgTx::Udp(s, to));
                 }
